@@ -24,6 +24,21 @@ CLAIMED = {
          "All sequences over {failure, success, ask, advance <timeout, >timeout, >probe window} up to length 6 (quick) / 8 (thorough) are run against the three real breakers (health, olla engine, unifier with several configurations) and compared, ask by ask, with a reference automaton written from the statement that yields the set of allowed answers; every sequence ends with a recovery suffix (works again => closes, count cleared, trips again at threshold); longer sequences are rapid-generated; G concurrent callers race on a timed-out breaker and admissions are counted against the stated limits.",
          "Time is simulated by rewinding stored timestamps through build-tag-guarded overlay hooks (exact for 'now - stored > timeout' code); where the statement is silent both answers are accepted; the concurrent part explores only the schedules the Go scheduler happens to produce.",
          "DESIGN.md §3 C08"),
+ "C12": ("exploration",
+         "grammar-driven rapid generation of Anthropic requests; independent conversation-trace extractor on both sides (exact-number JSON equality); invalid-request generator; same oracle through the full handler",
+         "Valid requests from the Messages grammar (string/block content in any order incl. tool_result-first user turns, system forms, 0..5 tools, every tool_choice form, nested inputs with big integers/escapes/unicode, unknown block fields) are translated with the exported TransformRequest and, for a subset, through the full HTTP stack into a recording backend; an independent extractor reduces both the Anthropic and the OpenAI side to a canonical trace (scalars, system first, turn order, tool calls with exactly-compared arguments, linked tool results, tool definitions, tool_choice table) and compares. Invalid requests (25 defect kinds) must be rejected: 400, Anthropic error object, nothing upstream.",
+         "Order of text vs tool_calls inside one assistant message is not expressible in OpenAI form and not asserted; unknown top-level fields may be rejected or translated; images must only not disturb the rest.",
+         "DESIGN.md §3 C12"),
+ "C13": ("exploration",
+         "rapid generation of completions x SSE renderings x reader chunkings; strict Anthropic-SSE state-machine oracle; reconstruction and stream-vs-buffered differential; hostile-stream termination oracle; native fuzz targets",
+         "Completions (text/tool segments, unicode, up to 256 KiB arguments, finish reasons, three usage placements) are rendered to OpenAI SSE with arbitrary delta splits and line endings and cut into arbitrary reader chunks; the bytes written by TransformStreamingResponse are parsed by an independent strict Anthropic event grammar (one message_start first, blocks opened/closed exactly once in order, typed deltas only while open, one message_delta, message_stop last), the content is reconstructed and compared (text, tool id/name/arguments byte-for-byte, stop_reason, usage) and compared with TransformResponse on the buffered form; noisy/hostile streams must terminate without panic.",
+         "Tool-call fragments are contiguous per call (as real backends emit them) for the full oracle; arbitrary interleavings only for the no-crash/termination clause.",
+         "DESIGN.md §3 C13"),
+ "C15": ("exploration",
+         "rapid-generated raw header blocks through the full stack; received header block compared by an independent multiset oracle",
+         "A raw TCP client writes generated header blocks (every sensitive and hop-by-hop name in random letter case, 0..3 occurrences, empty values; up to 40 arbitrary token-named headers with repeated names, obs-text and tabs; pre-existing Via / X-Forwarded-* / X-Real-IP on one or several lines) on proxy, provider, Anthropic passthrough and translated routes of both engines, with and without failover from a refusing endpoint; the raw backend's received header block must contain no sensitive or hop-by-hop header, every other client header with the same values in the same per-name order, nothing invented beyond the headers Olla/transport legitimately add, and every pre-existing forwarding value still in place before Olla's own element.",
+         "Headers nominated by the client's Connection value are not asserted; names compared case-insensitively.",
+         "DESIGN.md §3 C15"),
  "C06": ("exploration",
          "rapid-generated endpoint lists against a reference selector model; concurrent fairness counting",
          "Selectors obtained from balancer.Factory over a real stats collector are judged against reference rules on generated lists (n<=5, all statuses, priorities, gauge vectors) sequentially and from up to 32 goroutines: member-or-error, top-tier only and every tier member reached, exact k-per-member round-robin fairness over any window, minimal gauge for least-connections.",
